@@ -266,6 +266,22 @@ def hyp_search(ctx, col, strategy, execute, seed, max_examples, shrink=True):
         col.violation(last['spec'], last['v'])
 
 
+def hyp_collect(strategy, seed, n):
+    """n specs generated by the seeded strategy, without executing anything (used to hand the same kind of cases to a child
+    interpreter started under another environment)."""
+    from hypothesis import given, settings, seed as hseed, HealthCheck, Phase
+    got = []
+
+    @hseed(seed)
+    @settings(max_examples=n, database=None, deadline=None, derandomize=False, suppress_health_check=list(HealthCheck),
+              phases=[Phase.generate], print_blob=False)
+    @given(strategy)
+    def t(spec):
+        got.append(spec)
+    t()
+    return got[:n]
+
+
 def _is_found(e):
     while e is not None:
         if isinstance(e, _Found):
